@@ -526,6 +526,51 @@ theorem c14_send_before_track_violates : ¬ (∀ sid s, ReachR sid s → WakeCom
     (re-extracted from p2panda/src/processor/pipeline.rs on every run; the extraction fails for any other order). -/
 theorem c14_process_order_in_source : P2.Extracted.C14.processFirstCall = "track" := rfl
 
+/-! ## The result check of `ready()` must wait for the result lock
+
+Two submitters of one operation share one task. The pipeline completes it (result set, the single
+`notify_waiters()` fired) before submitter 1 enters `ready()`; submitter 1 registers, finds the result mutex
+taken by submitter 0 (who is cloning the result), skips the check (`try_lock`) and awaits a `Notified` created
+after the only notification. -/
+
+theorem reachT_runTryLock (sid : Nat → Nat) (as : List ActT) :
+    ∀ s s', ReachT sid s → runTryLock sid s as = some s' → ReachT sid s' := by
+  induction as with
+  | nil => intro s s' h hr; simp only [runTryLock, Option.some.injEq] at hr; exact hr ▸ h
+  | cons a as ih =>
+    intro s s' h hr
+    simp only [runTryLock] at hr
+    split at hr
+    · rename_i s1 h1
+      exact ih s1 s' (ReachT.step a h h1) hr
+    · contradiction
+
+def lateWaiterSchedule : List ActT :=
+  [.base (.track 0), .base (.track 1), .base (.send 0), .base (.send 1),
+   .base .recv, .base .remove, .base .setResult, .base .notifyWaiters,
+   .base (.register 0), .base (.check 0),          -- submitter 0 returns the result (holds the mutex meanwhile)
+   .base (.register 1), .checkSkip 1, .base (.await 1)]
+
+theorem c14_trylock_late_waiter_stuck :
+    ∃ s, runTryLock (fun _ => 5) init lateWaiterSchedule = some s ∧
+      s.pc 0 = .done ⟨5, 0⟩ ∧ s.pc 1 = .wait 0 ∧ s.result 0 = some ⟨5, 0⟩ ∧ s.pipe = .idle := by
+  refine ⟨_, rfl, rfl, rfl, rfl, rfl⟩
+
+/-- With `try_lock` the no-lost-wake-up statement is false: a waiter sits in `wait` although its task's result is
+    set and no notification is coming. (For the code's `lock().await` the statement is `c14_no_stuck`.) -/
+theorem c14_trylock_violates :
+    ¬ (∀ sid s, ReachT sid s → ∀ t x, s.pc t = .wait x → s.result x = none ∨ s.pipe = .notify x) := by
+  intro hall
+  obtain ⟨s, hr, _, hpc, hres, hp⟩ := c14_trylock_late_waiter_stuck
+  have hreach := reachT_runTryLock (fun _ => 5) lateWaiterSchedule init s ReachT.init hr
+  rcases hall _ s hreach 1 0 hpc with h | h
+  · rw [hres] at h; contradiction
+  · rw [hp] at h; contradiction
+
+/-- The early result check of `Task::ready` takes the mutex with `.lock().await` (re-extracted from tasks.rs on
+    every run; the extraction fails for `try_lock` or any other shape). -/
+theorem c14_ready_check_waits_for_lock_in_source : P2.Extracted.C14.readyCheckLock = "lock().await" := rfl
+
 /-! ### … and the source really is the atomic form
 
 `trackCriticalSection` is re-extracted from p2panda/src/processor/tasks.rs on every run: the body of
